@@ -381,6 +381,8 @@ fn blanks(input: Span) -> IResult<Span, ()> {
     V("seed-C12-r2-m1-empty-level-tables-skipped", [("@patch", "seeded/C12-r2-m1/patch.diff")], {"C12": "SKIPS:bash::write_completion_tables", "C04": "SKIPS:bash::write_completion_tables"}),
     V("seed-C17-r2-m1-empty-command-table-not-declared", [("@patch", "seeded/C17-r2-m1/patch.diff")], {"C17": "SKIPS:bash::write_match_transitions"}),
     V("seed-C10-r2-m1-type-annotation-no-c02-alarm", [("@patch", "seeded/C10-r2-m1/patch.diff")], {"C10": "D:ahash:features", "C02": None}),
+    V("seed-C12-r2-m3-zsh-exclusive-bound", [("@patch", "seeded/C12-r2-m3/patch.diff")], {"C12": "SIBLINGS:zsh:literal-loop-bounds"}),
+    V("seed-C13-r2-m1-pwsh-arm-shell-span", [("@patch", "seeded/C13-r2-m1/patch.diff")], {"C13": "FF:parse::Grammar::get_specializations"}),
     # ---------------- C10
     V("c10-std-hashset-in-dfa", [("src/dfa.rs", "use hashbrown::{HashMap, HashSet};", "use hashbrown::HashMap;\nuse std::collections::HashSet;")], {"C10": "HASHORD:dfa::dfa_from_regex"}),
     V("c10-env-var", [("src/lib.rs", '    let version = env!("COMPLGEN_VERSION");', '    let version = std::env::var("COMPLGEN_VERSION").unwrap_or_default();')], {"C10": "AMBIENT:signature"}),
